@@ -212,7 +212,12 @@ impl BytesSerializable for Permissions {
         bytes.put_u8(if self.global.read_topics { 1 } else { 0 });
         bytes.put_u8(if self.global.poll_messages { 1 } else { 0 });
         bytes.put_u8(if self.global.send_messages { 1 } else { 0 });
-        if let Some(streams) = &self.streams {
+        // a map without entries cannot be announced: the decoder reads at least one entry after the flag
+        let streams = match &self.streams {
+            Some(streams) if !streams.is_empty() => Some(streams),
+            _ => None,
+        };
+        if let Some(streams) = streams {
             bytes.put_u8(1);
             let streams_count = streams.len();
             let mut current_stream = 1;
@@ -224,7 +229,11 @@ impl BytesSerializable for Permissions {
                 bytes.put_u8(if stream.read_topics { 1 } else { 0 });
                 bytes.put_u8(if stream.poll_messages { 1 } else { 0 });
                 bytes.put_u8(if stream.send_messages { 1 } else { 0 });
-                if let Some(topics) = &stream.topics {
+                let topics = match &stream.topics {
+                    Some(topics) if !topics.is_empty() => Some(topics),
+                    _ => None,
+                };
+                if let Some(topics) = topics {
                     bytes.put_u8(1);
                     let topics_count = topics.len();
                     let mut current_topic = 1;
